@@ -13,7 +13,7 @@
 EXTENDS Resp, TraceBase
 
 VARIABLE en      \* enumeration in progress, or Off
-tvars == <<wire, buf, sent, decoded, out, st, en, l, sid, used>>
+tvars == <<wire, buf, sent, decoded, out, st, en, l, sid, used, failed>>
 
 Off == [on |-> FALSE]
 
@@ -26,8 +26,9 @@ Ins(b, i, x) == SubSeq(b, 1, i) \o x \o SubSeq(b, i + 1, Len(b))      \* x inser
 TInit == RInit /\ TBInit /\ en = Off
 Idle == UNCHANGED en /\ en = Off
 
-T_Reset == ResetBook /\ wire' = <<>> /\ buf' = <<>> /\ sent' = <<>> /\ decoded' = <<>> /\ out' = <<>>
-           /\ st' = "idle" /\ en' = Off
+Fresh == wire' = <<>> /\ buf' = <<>> /\ sent' = <<>> /\ decoded' = <<>> /\ out' = <<>> /\ st' = "idle" /\ en' = Off
+T_Reset == ResetBook /\ Fresh
+T_Fail == FailBook /\ Fresh
 
 \* ---- C20: the server loop driven in process
 T_Open == IsEv("Open") /\ Open(Ev.wire, FALSE) /\ Idle /\ Same
@@ -45,7 +46,8 @@ T_LiveClose == IsEv("LiveClose") /\ LiveClose(Ev.obs.replies) /\ Idle /\ Same
 
 \* ---- C21: single decode calls
 ProbeOK(b) == Probe(b, Ev.res, Ev.val, Ev.obs.rest, Ev.obs.peak)
-T_Probe == IsEv("Probe") /\ ProbeOK(Ev.bytes) /\ Idle /\ Same
+\* errreply = the "-ERR <error>" line the read loop writes for a protocol error (C22)
+T_Probe == IsEv("Probe") /\ ProbeOK(Ev.bytes) /\ (Ev.res = "error" => StrictOne(Ev.errreply)) /\ Idle /\ Same
 T_Exhaust ==
     /\ IsEv("Exhaust") /\ st = "idle" /\ en = Off
     /\ Len(Ev.prefix) <= Ev.n
@@ -86,7 +88,7 @@ T_SweepEnd ==
     /\ IsEv("SweepEnd") /\ en.on /\ en.kind = "sweep" /\ en.ctr = en.total
     /\ en' = Off /\ UNCHANGED rvars /\ Same
 
-TNext == \/ T_Reset
+TNext == \/ T_Fail \/ T_Reset
          \/ T_Open \/ T_Deliver \/ T_Decode \/ T_End
          \/ T_LiveOpen \/ T_LiveSend \/ T_LiveClose
          \/ T_Probe \/ T_Exhaust \/ T_Case \/ T_ExhaustEnd \/ T_Big
